@@ -24,6 +24,9 @@ theorem taskFacts_step (hi : Inv s) (h : step s l = some s') : ∀ k,
   have h8 := hi.inTaskInv l.tid
   have h9 := hi.preEnqInv l.tid
   have h10 := hi.queued k
+  have hN := hi.nPreEnqInv l.tid
+  have hA := ph_of_pastChk hi l.tid
+  have hB := ph_of_inTask hi l.tid
   step_cases h
   all_goals first
     | exact ⟨h1, h2, h3, h4, h5, h6⟩
@@ -36,6 +39,10 @@ theorem tasksNodup_step (hi : Inv s) (h : step s l = some s') : s'.tasks.Nodup :
   have h1 := hi.tasksNodup
   have h2 := hi.preEnqInv l.tid
   have h3 := hi.queued (s.cur l.tid)
+  have h3n := hi.queued (s.addK l.tid)
+  have hN := hi.nPreEnqInv l.tid
+  have hA := ph_of_pastChk hi l.tid
+  have hB := ph_of_inTask hi l.tid
   step_cases h
   all_goals first
     | exact h1
@@ -51,6 +58,9 @@ theorem queued_step (hi : Inv s) (h : step s l = some s') :
   have h4 := hi.startAcc k
   have h5 := hi.discInv k
   have h6 := hi.inTaskInv l.tid
+  have hN := hi.nPreEnqInv l.tid
+  have hA := ph_of_pastChk hi l.tid
+  have hB := ph_of_inTask hi l.tid
   step_cases h
   all_goals first
     | exact h1 hk
@@ -70,6 +80,9 @@ theorem heldInv_step (hi : Inv s) (h : step s l = some s') : ∀ u, held (s'.pc 
   have h4 := hi.tasksNodup
   have h5 := hi.preEnqInv l.tid
   have h6 := hi.inTaskInv l.tid
+  have hN := hi.nPreEnqInv l.tid
+  have hA := ph_of_pastChk hi l.tid
+  have hB := ph_of_inTask hi l.tid
   step_cases h
   all_goals (
     by_cases ht : u = l.tid
@@ -79,7 +92,7 @@ theorem heldInv_step (hi : Inv s) (h : step s l = some s') : ∀ u, held (s'.pc 
 
 
 set_option maxHeartbeats 1000000 in
-theorem inTaskInv_step (hi : Inv s) (h : step s l = some s') : ∀ u, s'.pc u = .wInTask →
+theorem inTaskInv_step (hi : Inv s) (h : step s l = some s') : ∀ u, inTask (s'.pc u) = true →
     (s'.task (s'.cur u)).started = true ∧ (s'.task (s'.cur u)).finished = false ∧ (s'.task (s'.cur u)).runner = u := by
   intro u hu
   have h1 := hi.inTaskInv u
@@ -90,6 +103,9 @@ theorem inTaskInv_step (hi : Inv s) (h : step s l = some s') : ∀ u, s'.pc u = 
   have h7 := hi.startAcc (s.cur u)
   have h8 := hi.accSub (s.cur u)
   have h9 := hi.finStarted (s.cur l.tid)
+  have hN := hi.nPreEnqInv l.tid
+  have hA := ph_of_pastChk hi l.tid
+  have hB := ph_of_inTask hi l.tid
   step_cases h
   all_goals (
     by_cases ht : u = l.tid
@@ -99,7 +115,7 @@ theorem inTaskInv_step (hi : Inv s) (h : step s l = some s') : ∀ u, s'.pc u = 
 
 set_option maxHeartbeats 1000000 in
 theorem runningInv_step (hi : Inv s) (h : step s l = some s') : ∀ k, (s'.task k).started = true → (s'.task k).finished = false →
-    s'.pc (s'.task k).runner = .wInTask ∧ s'.cur (s'.task k).runner = k := by
+    inTask (s'.pc (s'.task k).runner) = true ∧ s'.cur (s'.task k).runner = k := by
   intro k hk1 hk2
   have h1 := hi.runningInv k
   have h2 := hi.heldInv l.tid
@@ -107,6 +123,9 @@ theorem runningInv_step (hi : Inv s) (h : step s l = some s') : ∀ k, (s'.task 
   have h6 := hi.inTaskInv l.tid
   have h7 := hi.startAcc k
   have h8 := hi.accSub k
+  have hN := hi.nPreEnqInv l.tid
+  have hA := ph_of_pastChk hi l.tid
+  have hB := ph_of_inTask hi l.tid
   step_cases h
   all_goals (
     by_cases ht : (s.task k).runner = l.tid <;>
@@ -124,6 +143,9 @@ theorem pendingInv_step (hi : Inv s) (h : step s l = some s') : ∀ k, (s'.task 
   have h5 := hi.preEnqInv l.tid
   have h6 := hi.inTaskInv l.tid
   have h7 := hi.tasksNodup
+  have hN := hi.nPreEnqInv l.tid
+  have hA := ph_of_pastChk hi l.tid
+  have hB := ph_of_inTask hi l.tid
   step_cases h
   all_goals (
     by_cases ht : (s.task k).runner = l.tid <;>
@@ -140,6 +162,9 @@ theorem preEnqInv_step (hi : Inv s) (h : step s l = some s') : ∀ u, preEnq (s'
   have h5 := hi.heldInv l.tid
   have h6 := hi.inTaskInv l.tid
   have h7 := hi.startAcc
+  have hN := hi.nPreEnqInv l.tid
+  have hA := ph_of_pastChk hi l.tid
+  have hB := ph_of_inTask hi l.tid
   step_cases h
   all_goals (
     by_cases ht : u = l.tid
@@ -174,6 +199,9 @@ theorem discPhase_step (hi : Inv s) (h : step s l = some s') :
   have h2 := waitall_queue_empty hi
   have h4 := hi.othersNotM l.tid
   have h5 := hi.mainIsM
+  have hN := hi.nPreEnqInv l.tid
+  have hA := ph_of_pastChk hi l.tid
+  have hB := ph_of_inTask hi l.tid
   step_cases h
   all_goals (
     by_cases h0 : l.tid = 0
